@@ -87,13 +87,17 @@ def _run_one(prop_id: str, desc: dict, seed: int, timeout: float, workdir: str, 
         os.unlink(out)
     cmd = [PY, "-X", "faulthandler", "-m", "vmon.worker", prop_id, json.dumps(desc), out]
     t0 = time.time()
+    proc = subprocess.Popen(cmd, cwd=ROOT, env=worker_env(seed), stdout=subprocess.PIPE, stderr=subprocess.PIPE, text=True)
+    _CHILDREN.add(proc)
     try:
-        cp = subprocess.run(
-            cmd, cwd=ROOT, env=worker_env(seed), timeout=timeout,
-            stdout=subprocess.PIPE, stderr=subprocess.PIPE, text=True,
-        )
+        out_s, err_s = proc.communicate(timeout=timeout)
     except subprocess.TimeoutExpired:
+        proc.kill()
+        proc.communicate()
+        _CHILDREN.discard(proc)
         return {"_status": "timeout", "_desc": desc, "_wall": time.time() - t0}
+    _CHILDREN.discard(proc)
+    cp = subprocess.CompletedProcess(cmd, proc.returncode, out_s, err_s)
     if cp.returncode != 0 or not os.path.exists(out):
         return {
             "_status": "died", "_desc": desc, "_rc": cp.returncode,
@@ -108,6 +112,27 @@ def _run_one(prop_id: str, desc: dict, seed: int, timeout: float, workdir: str, 
     return res
 
 
+_CHILDREN = set()
+
+
+def _install_signal_cleanup():
+    import signal
+
+    def handler(signum, frame):
+        for p in list(_CHILDREN):
+            try:
+                p.kill()
+            except Exception:  # noqa: BLE001
+                pass
+        os._exit(2)
+
+    for sig in (signal.SIGTERM, signal.SIGINT):
+        try:
+            signal.signal(sig, handler)
+        except Exception:  # noqa: BLE001
+            pass
+
+
 def mech_hash(obj) -> str:
     return hashlib.sha1(json.dumps(obj, sort_keys=True, default=str).encode()).hexdigest()[:10]
 
@@ -116,6 +141,7 @@ def run_check(prop_id: str, tier: str, jobs: int = 16) -> int:
     prop_id = prop_id.upper()
     seed = seed_from_env()
     t0 = time.time()
+    _install_signal_cleanup()
     ensure_deps()
     sys.path.insert(0, ROOT)
     mod = load_prop(prop_id)
